@@ -1,4 +1,4 @@
-package drivers
+package output
 
 import (
 	"context"
@@ -199,7 +199,7 @@ func runE2E(c *OutCase, r *rand.Rand) (sched.Result, error) {
 	return res, nil
 }
 
-func Output(args []string) {
+func Main(args []string) {
 	o := common.ParseOpts(args)
 	obs := common.NewObs("output", o.Seed)
 	var cases []*OutCase
